@@ -176,8 +176,10 @@ structure Record where
   metrics : List (String × Summary)
 deriving DecidableEq, Repr, Inhabited
 
-/-- `_to_snake_case` -/
-def toSnake (s : String) : String := (s.replace " " "_").toLower
+/-- `_to_snake_case`: `x.replace(" ", "_").lower()` (character-wise, so that the kernel can
+evaluate it on the generated names; ASCII lower-casing) -/
+def toSnake (s : String) : String :=
+  String.ofList (s.toList.map fun c => if c == ' ' then '_' else c.toLower)
 
 abbrev RowKey := Metadata × Date × Date
 
